@@ -124,7 +124,7 @@ let handle0 fields impl : string option * string list =
   | ["permops"; _dir; limit; ops] ->
     let limit = int_of_string limit in
     let opl = String.split_on_char ',' ops in
-    let pops = List.map (fun o -> if o = "g" then PopGet else PopRelease (Obj.magic (Util.nat_of_int (int_of_string (String.sub o 1 (String.length o - 1)))))) opl in
+    let pops = List.map (fun o -> if o = "g" then PopGet else if o = "S" then PopRestart else PopRelease (Obj.magic (Util.nat_of_int (int_of_string (String.sub o 1 (String.length o - 1)))))) opl in
     let m = match pops_run (n_ limit) pops (n_ 0, []) with
       | Ok l -> "ok s=" ^ String.concat "," (List.map2 (fun o (ok, c) ->
           Printf.sprintf "%s:%d" (if o = "g" then (if ok then "1" else "0") else "-") (limit - int_n c)) opl l)
@@ -145,7 +145,7 @@ let handle0 fields impl : string option * string list =
                 handles := (!nh, true) :: !handles; incr inuse
               end else handles := (!nh, false) :: !handles;
               incr nh
-            end else begin
+            end else if o = "S" then () else begin
               let i = int_of_string (String.sub o 1 (String.length o - 1)) in
               (match List.assoc_opt i !handles with
                | Some true -> handles := (i, false) :: List.remove_assoc i !handles; decr inuse
@@ -155,6 +155,26 @@ let handle0 fields impl : string option * string list =
             else if free >= 0 && free < limit - !inuse then out := Printf.sprintf "permit-leak-ops step %d (%s): %d obtainable with %d of %d in use" k o free !inuse limit :: !out) opl;
         List.rev !out
       end in
+    (Some m, mons)
+  | ["restart"; limit; _ver] ->
+    let limit = int_of_string limit in
+    let pre = List.init (limit - 1) (fun _ -> PopGet) in
+    let m = match pops_run (n_ limit) (pre @ [PopGet; PopGet; PopRestart; PopGet]) (n_ 0, []) with
+      | Ok l ->
+        let arr = Array.of_list l in
+        let k = limit - 1 in
+        let (o1, _) = arr.(k) and (o2, _) = arr.(k + 1) and (_, cs) = arr.(k + 2) and (o3, _) = arr.(k + 3) in
+        let bit x = if x then 1 else 0 in
+        Printf.sprintf "ok o1=%d o2=%d free=%d o3=%d" (bit o1) (bit o2) (limit - int_n cs) (bit o3)
+      | _ -> "panic" in
+    let mons =
+      if not (starts impl "ok") then []
+      else
+        (if ifield impl "o1" = 1 && ifield impl "free" > 0 then
+           [Printf.sprintf "permits-available-exceeds-limit %d inbound slot(s) obtainable after Utp.Start() while every slot is in use" (ifield impl "free")] else []) @
+        (if ifield impl "o1" = 1 && ifield impl "o3" = 1 then
+           ["permits-in-use-exceeds-limit an OFFER was accepted after Utp.Start() although every inbound slot is in use"] else []) @
+        (if ifield impl "o1" = 1 && ifield impl "o2" = 1 then ["more-inbound-transfers-than-limit second OFFER accepted with every slot in use"] else []) in
     (Some m, mons)
   | ["laterelease"; limit; _ver] ->
     let limit = int_of_string limit in
